@@ -185,6 +185,49 @@ def main():
                                      dict(rp, where=where, defect=hd_), rp)
                     if opts.get("secular_relaxation") and where == "outside":
                         pass
+            # the operator form acting on operators ("maps any operator to
+            # a traceless operator and commutes with Hermitian conjugation"),
+            # in the site basis and in a sequence of different basis
+            # contexts entered one after another
+            if opts.get("as_operators") and not opts.get(
+                    "secular_relaxation") and not opts.get("time_dependent"):
+                with ck.guarded("operator-form-apply", theory, rp, rp):
+                    RTa, _ = ag.get_RelaxationTensor(
+                        ta, relaxation_theory=theory, **opts)
+                    nn = ham.dim
+                    rs = numpy.random.RandomState(13 * nn + s)
+                    ctxs = [None]
+                    for k in range(3):
+                        Bq = rs.randn(nn, nn) + (1j * rs.randn(nn, nn)
+                                                 if k == 1 else 0.0)
+                        ctxs.append(qr.qm.SelfAdjointOperator(
+                            data=(Bq + Bq.conj().T) / 2))
+                    ctxs.append(ham)
+                    X0 = rs.randn(nn, nn) + 1j * rs.randn(nn, nn)
+                    for ci, cop in enumerate(ctxs):
+                        import contextlib as _cl
+                        with (qr.eigenbasis_of(cop) if cop is not None
+                              else _cl.nullcontext()):
+                            X = qr.qm.Operator(data=X0.copy())
+                            Xd = qr.qm.Operator(data=X0.conj().T.copy())
+                            Y = numpy.array(RTa.apply(X).data)
+                            Yd = numpy.array(RTa.apply(Xd).data)
+                        sc = max(float(numpy.abs(Y).max()), 1e-300)
+                        td_ = abs(numpy.trace(Y)) / sc
+                        hd_ = float(numpy.abs(Yd - Y.conj().T).max()) / sc
+                        ck.case("operator-form-apply",
+                                (s, theory, str(opts), ci),
+                                nontrivial=ci > 0,
+                                sample=dict(rp, context=ci, trace=td_,
+                                            herm=hd_))
+                        if td_ > 1e-10:
+                            ck.violation("trace-preserving",
+                                         "operator-form-apply:" + theory,
+                                         dict(rp, context=ci, defect=td_), rp)
+                        if hd_ > 1e-10:
+                            ck.violation("hermiticity-preserving",
+                                         "operator-form-apply:" + theory,
+                                         dict(rp, context=ci, defect=hd_), rp)
             # an operator-form tensor converted to the tensor form inside the
             # eigenbasis of a complex Hermitian operator ("in every basis")
             if opts.get("as_operators") and not opts.get(
